@@ -70,7 +70,10 @@ let same (m : outcome) (i : outcome) : bool =
   && (match m.cls with
       | "verdict" -> m.sub = i.sub && (m.sub <> "fail" || m.k = i.k)
       | "err" -> m.sub = i.sub && (m.sub = "parser" || m.sub = "io" || m.sub = "solver-dead" || m.text = i.text)
-      | "panic" -> m.sub = i.sub
+      | "panic" ->
+          (* the location is recorded, only the FILE is compared (DESIGN section 4): line numbers drift with every edit *)
+          let file x = match String.index_opt x ':' with Some k -> String.sub x 0 k | None -> x in
+          file m.sub = file i.sub
       | _ -> true)
 
 (* ---- a stand-in for smt/parser.rs on the replies that occur here (untrusted, correspondence only):
@@ -158,13 +161,16 @@ let naive_balance (s : string) : int =
   let n = ref 0 in
   String.iter (fun c -> if c = '(' then incr n else if c = ')' then decr n) s;
   !n
-let aware_balance (s : string) : int =
+let aware_scan (s : string) : int * bool =
   let n = ref 0 and in_str = ref false and in_bar = ref false in
   String.iter (fun c ->
       if !in_str then (if c = '"' then in_str := false)
       else if !in_bar then (if c = '|' then in_bar := false)
       else match c with '"' -> in_str := true | '|' -> in_bar := true | '(' -> incr n | ')' -> decr n | _ -> ()) s;
-  !n
+  (!n, !in_str || !in_bar)
+let aware_balance (s : string) : int = fst (aware_scan s)
+(* lexically incomplete: parentheses still open outside literals, or the text ends inside a string literal / |symbol| *)
+let lexically_open (s : string) : bool = let (n, inside) = aware_scan s in n > 0 || inside
 
 (* the message of an (error "...") reply: text between the first and the last double quote *)
 let error_reply_message (line : string) : string option =
@@ -281,6 +287,12 @@ let handle (c : Sexp.t) : string =
   let oracle : (unit, string * string) result =
     if is_ctx then ctx_oracle () else
     match impl.cls with
+    | "hang" when (not eof) && point >= 0 && lexically_open emitted && o_fix.cls = "hang" && o_fix.sub = "blocked" ->
+        (* The documented blocking class (theorem C15_blocked_only_on_open_reply): a LIVE solver has written a
+           reply that is lexically incomplete - open parenthesis outside literals, or an unterminated string
+           literal (an error reply whose message is a single double quote) - and says nothing more.  A reader without a timeout has to wait; the
+           model of the repaired reader says Blocked too.  Not a violation. *)
+        Ok ()
     | "hang" ->
         let nb = naive_balance emitted and ab = aware_balance emitted in
         if eof && nb > 0 then Error ("hang:eof-unbalanced", "end of stream inside an unbalanced reply: the run never returns")
@@ -289,16 +301,22 @@ let handle (c : Sexp.t) : string =
     | "panic" ->
         (* bmc.rs:58 is the documented assertion "constraints are satisfiable" (check_constraints): when the
            fault-free run ends there too and the faulty reply was delivered intact, it is not a solver-fault issue *)
-        if impl.sub = "patronus/src/mc/bmc.rs:58" && same nominal impl && (point < 0 || List.mem fault_kind intact_kinds) then Ok ()
+        let is_bmc_rs = String.length impl.sub >= 23 && String.sub impl.sub 0 23 = "patronus/src/mc/bmc.rs:" in
+        if is_bmc_rs && nominal.cls = "panic" && same nominal impl && (point < 0 || List.mem fault_kind intact_kinds) then Ok ()
         else Error ("panic@" ^ impl.sub, "the run panics")
     | "crash" | "start-failed" | "?" -> Error ("crash", "the worker died without an outcome")
     | "err" ->
         (match sent_error_message with
          | Some m when impl.sub = "from-solver" && impl.text <> m ->
-             Error ("error-message-mangled:len>=5", Printf.sprintf "solver said %S, the error carries %S" m impl.text)
+             (* read_response joins the lines of a reply with an extra blank (solver.rs pushes a blank before every further line) *)
+             let with_blanks = String.concat "\n " (String.split_on_char '\n' m) in
+             if String.contains m '\n' && impl.text = with_blanks
+             then Error ("error-message-blank-after-newline", Printf.sprintf "solver said %S, the error carries %S" m impl.text)
+             else Error ("error-message-mangled:len>=5", Printf.sprintf "solver said %S, the error carries %S" m impl.text)
          | Some m when impl.sub <> "from-solver" && impl.sub <> "solver-dead" ->
              Error ("error-reply-not-reported:" ^ impl.sub, Printf.sprintf "solver said %S" m)
-         | _ ->
+         | Some _ -> Ok ()   (* the error reply itself is what the error carries (or the solver is reported dead) *)
+         | None ->
              if (fault_kind = "exit1" || fault_kind = "replyexit1") && impl.sub = "from-solver"
                 && (match exit_obs with Some (_, t) -> string_of_cl t <> impl.text | None -> false)
              then Error ("stderr-message-mangled", "the text on stderr is not what the error carries")
@@ -323,13 +341,8 @@ let handle (c : Sexp.t) : string =
         else " (NOT predicted by the model of the current code)" in
       Registry.result ~id ~status:"fail" ~key ~detail:(what ^ by_model ^ "; " ^ detail) ()
   | Ok () ->
-      let emitted_nb = naive_balance emitted and emitted_ab = aware_balance emitted in
-      if same o_fix impl then Registry.result ~id ~status:"ok" ~key:(impl.cls ^ ":" ^ impl.sub) ~detail ()
-      else if (not eof) && emitted_nb > 0 && emitted_ab <= 0 && impl.cls = "err" && impl.sub = "from-solver" && sent_error_message = Some impl.text then
-        (* A complete error reply whose message contains '(': outside the reader model (its count_parens is the naive
-           one of today's code, which blocks here: known finding hang:open-paren-inside-string).  A reader with a
-           string-aware count reports the error, message intact: that satisfies the property. *)
-        Registry.result ~id ~status:"ok" ~key:"outside-model:open-paren-inside-string" ~detail ()
+      if same o_fix impl then
+        Registry.result ~id ~status:"ok" ~key:(if impl.cls = "hang" then "blocked:open-reply-from-live-solver" else impl.cls ^ ":" ^ impl.sub) ~detail ()
       else if same o_cur impl then Registry.result ~id ~status:"ok" ~key:("cur-only:" ^ impl.cls ^ ":" ^ impl.sub) ~detail ()
       else Registry.result ~id ~status:"diff" ~key:("model-mismatch:" ^ fault_kind) ~detail ()
 
